@@ -199,6 +199,9 @@ CONTROLS = [
     ("plain_decl_multi", "var (x, y);"),
     ("plain_decl_1", "var (x) = 1;"),
     ("plain_parallel", "cc = parallel P1(2);"),
+    ("plain_log_long", "log(\"" + "x" * 300 + "\", a);"),
+    ("plain_log_long_utf8", "log(\"a" + "\u00e9" * 200 + "\", (a, b), \"" + "\u20ac" * 100 + "\");"),
+    ("plain_log_460", "log(\"" + "y" * 460 + "\");"),
 ]
 
 
